@@ -236,6 +236,9 @@ func dialTransport(w *World, name, transport, outbuf string, certs string) (*tcl
 
 func RunIntegrity(spec IntegritySpec) vx.Out {
 	var viol []vx.Found
+	// successive clock reads differ (as on a real clock), so that a copy of a message that
+	// is stamped anew instead of inheriting the publish timestamp is visible
+	vrt.S.TickNow = true
 	bad := func(clause, f string, a ...interface{}) {
 		if len(viol) < 8 {
 			viol = append(viol, vx.Found{Sig: clause + " :: integrity " + spec.String(), Detail: fmt.Sprintf(f, a...)})
